@@ -767,7 +767,7 @@ func sortedFuncs(e *ownEngine) []*ssa.Function {
 
 // AtomicCell: internal/atomic.Value touches its pointer only through sync/atomic; ValuePtr.v is written only in literals.
 func AtomicCell(c *core.Ctx, rule string) {
-	c.Rule(rule, "internal/atomic.Value accesses its pointer field only through sync/atomic Load/Store/CompareAndSwapPointer, and the ValuePtr box is immutable after construction (its field is set only in composite literals)")
+	c.Rule(rule, "internal/atomic.Value accesses its pointer field only through sync/atomic (Load/Store/CompareAndSwapPointer on its address, or the methods of a sync/atomic typed wrapper such as atomic.Pointer[T]), and the ValuePtr box is immutable after construction (its field is set only in composite literals)")
 	p := c.Pkg("internal/atomic")
 	if p == nil {
 		c.Add(rule, "pkg", token.NoPos, core.Undecided, "package internal/atomic not found")
@@ -805,6 +805,10 @@ func AtomicCell(c *core.Ctx, rule string) {
 							if u, ok := ast.Unparen(a).(*ast.UnaryExpr); ok && u.Op == token.AND && ast.Unparen(u.X) == s {
 								okUse = true
 							}
+						}
+						// a typed wrapper (atomic.Pointer[T], atomic.Value): the method call on the field is the atomic access
+						if msel, ok := ast.Unparen(call.Fun).(*ast.SelectorExpr); ok && ast.Unparen(msel.X) == ast.Expr(s) && callee.Type().(*types.Signature).Recv() != nil {
+							okUse = true
 						}
 						return true
 					})
